@@ -168,6 +168,7 @@ def run(ctx):
         i += 1
     n_eval += nested_part(ctx, dist, nontrivial, batch, N, cases_dbg, i)
     n_eval += derived_after_select_run_part(ctx)
+    n_eval += nested_two_entry_cycle_part(ctx)
     n_eval += bound_output_part(ctx, dist)
     res = batch.run()
     if res["error"]:
@@ -225,6 +226,41 @@ def derived_after_select_run_part(ctx):
                 except Exception as e:  # noqa: BLE001
                     ctx.violation("oracle", f"{label}: omitting {omit_bad!r} raised {type(e).__name__} instead of MissingInputError", case=case)
             n += 2
+    return n
+
+
+def nested_two_entry_cycle_part(ctx):
+    """A CYCLIC graph with k >= 2 entry points used as a node: the enclosing graph lists ONE entry point (the wrapper) whose
+    parameters are the union of the inner ones.  C08: supplying the parameters of that listed entry point is accepted."""
+    from hypergraph import END, Graph, SyncRunner
+    from hypergraph.nodes import FunctionNode, RouteNode
+    rng = ctx.rng
+    n = 0
+    for _ in range(ctx.n(4, 20)):
+        k = rng.randint(2, 3)
+        names = [f"w{i}" for i in range(k)]
+        nodes = []
+        for i in range(k):
+            ns = {}
+            exec(f"def c{i}({names[i]}):\n    return {names[i]} + 1\n", ns)  # noqa: S102 - fixed names
+            nodes.append(FunctionNode(ns[f"c{i}"], name=f"c{i}", output_name=names[(i + 1) % k]))
+        ns = {}
+        exec(f"def gate({names[0]}):\n    return END if {names[0]} > 5 else 'c0'\n", {"END": END, **ns}, ns)  # noqa: S102
+        nodes.append(RouteNode(ns["gate"], targets=["c0", END], name="gate"))
+        rng.shuffle(nodes)
+        inner = Graph(nodes, name="inner")
+        outer = Graph([inner.as_node()])
+        eps = dict(outer.inputs.entrypoints)
+        case = {"family": "nested_two_entry_cycle", "k": k, "inner_entrypoints": {a: list(b) for a, b in inner.inputs.entrypoints.items()},
+                "outer_entrypoints": {a: list(b) for a, b in eps.items()}}
+        for ep, params in eps.items():
+            vals = {p_: 1 for p_ in list(outer.inputs.required) + list(params)}
+            n += 1
+            try:
+                SyncRunner().run(outer, vals)
+            except Exception as e:  # noqa: BLE001
+                ctx.violation("oracle", f"nested cycle: the enclosing graph lists entry point {ep!r} with parameters {list(params)}; supplying exactly those is rejected: "
+                              f"{type(e).__name__}: {str(e).splitlines()[0][:90]}", case=case)
     return n
 
 
